@@ -62,6 +62,10 @@ pub struct SimCfg {
     /// latency profile for the Latency policy (nanoseconds, per kind)
     pub latency: [u64; 5],
     pub check_intermediate: bool,
+    /// disk errors: per-mille of the dictionary file operations of an add-word command that fail
+    /// with EIO / ENOSPC / EMFILE / EACCES instead of being carried out (sequential sessions only)
+    #[serde(default)]
+    pub fs_error_pm: usize,
 }
 
 #[derive(Clone, Debug, PartialEq)]
@@ -70,6 +74,8 @@ pub enum Ev {
     Deliver,
     Answer(usize),
     Gate(u64),
+    /// the operation behind the gate fails with this errno
+    GateFail(u64, i32),
     Drain,
 }
 
@@ -115,6 +121,8 @@ pub struct Sim<'j> {
     pub max_burst_len: u64,
     keep_log: bool,
     quiescent_points: u64,
+    /// gate id -> the fate decided for it when it was first seen (None: proceeds)
+    doom: BTreeMap<u64, Option<i32>>,
 }
 
 fn spawn_proc(stdout_cap: usize) -> Proc {
@@ -284,7 +292,12 @@ pub fn derive_cfg(job: &Job) -> SimCfg {
             *r.pick(&[1_000, 200_000]),
         ],
         check_intermediate: true,
+        fs_error_pm: if sequential && mode_disk_errors(job) { *r.pick(&[60, 150, 300]) } else { 0 },
     }
+}
+
+fn mode_disk_errors(job: &Job) -> bool {
+    job.params.get("disk_errors").and_then(|v| v.as_bool()).unwrap_or(false)
 }
 
 impl<'j> Sim<'j> {
@@ -350,6 +363,7 @@ impl<'j> Sim<'j> {
             max_burst_len: 0,
             keep_log: job.want_trace,
             quiescent_points: 0,
+            doom: BTreeMap::new(),
         }
         .with_preexisting(preexisting)
     }
@@ -359,7 +373,7 @@ impl<'j> Sim<'j> {
         let mut id = -1i64;
         for (path, words) in pre {
             for w in words {
-                self.client.added.push(client::AddedWord { word: w.clone(), file: None, req_id: id, acked: true });
+                self.client.added.push(client::AddedWord { word: w.clone(), file: None, req_id: id, acked: true, faulted: false });
                 self.oracle_state.dict_model.entry(format!("user|{path}")).or_default().push((w, id));
                 id -= 1;
             }
@@ -454,8 +468,40 @@ impl<'j> Sim<'j> {
             }
             let gates = fsim::pending();
             self.max_pending_gates = self.max_pending_gates.max(gates.len());
+            let faultable = self.cfg.fs_error_pm > 0 && self.add_command_running().is_some();
             for g in gates {
-                evs.push(Ev::Gate(g.id));
+                use tokio::sim::GateKind as K;
+                if faultable && matches!(g.kind, K::Open | K::Create | K::Mkdir | K::Read | K::Write | K::Flush | K::Rename) {
+                    if self.replay_decisions.is_some() {
+                        // replay by trace: the recorded label says which of the two happened
+                        evs.push(Ev::Gate(g.id));
+                        evs.push(Ev::GateFail(g.id, libc::EIO));
+                        continue;
+                    }
+                    let pm = self.cfg.fs_error_pm;
+                    let fate = match self.doom.get(&g.id) {
+                        Some(f) => *f,
+                        None => {
+                            let f = if self.rng_fault.chance(pm, 1000) {
+                                Some(match g.kind {
+                                    K::Open | K::Read => *self.rng_fault.pick(&[libc::EIO, libc::EMFILE, libc::EACCES]),
+                                    K::Create | K::Mkdir => *self.rng_fault.pick(&[libc::ENOSPC, libc::EMFILE, libc::EACCES, libc::EIO]),
+                                    _ => *self.rng_fault.pick(&[libc::ENOSPC, libc::EIO]),
+                                })
+                            } else {
+                                None
+                            };
+                            self.doom.insert(g.id, f);
+                            f
+                        }
+                    };
+                    match fate {
+                        Some(errno) => evs.push(Ev::GateFail(g.id, errno)),
+                        None => evs.push(Ev::Gate(g.id)),
+                    }
+                } else {
+                    evs.push(Ev::Gate(g.id));
+                }
             }
             if !self.wire.is_empty() {
                 evs.push(Ev::Deliver);
@@ -491,8 +537,25 @@ impl<'j> Sim<'j> {
                 let ord = same.iter().position(|x| x == id).unwrap_or(0);
                 format!("gate:{}:{}#{}", g.kind.name(), g.path.display(), ord)
             }
+            Ev::GateFail(id, _) => {
+                let ps = fsim::pending();
+                let g = ps.iter().find(|g| g.id == *id).unwrap();
+                let same: Vec<u64> = ps.iter().filter(|x| x.kind == g.kind && x.path == g.path).map(|x| x.id).collect();
+                let ord = same.iter().position(|x| x == id).unwrap_or(0);
+                format!("gatefail:{}:{}#{}", g.kind.name(), g.path.display(), ord)
+            }
             Ev::Drain => "drain".into(),
         }
+    }
+
+    /// The add-word command that is being served, if it is the only request in flight.
+    fn add_command_running(&self) -> Option<i64> {
+        if self.cfg.policy != Policy::Sequential || self.client.pending.len() != 1 {
+            return None;
+        }
+        let p = self.client.pending.values().next()?;
+        let cmd = p.params["command"].as_str().unwrap_or("");
+        if p.method == "workspace/executeCommand" && matches!(cmd, "HarperAddToUserDict" | "HarperAddToFileDict") { Some(p.id) } else { None }
     }
 
     fn kind_index(ev: &Ev) -> usize {
@@ -500,7 +563,7 @@ impl<'j> Sim<'j> {
             Ev::Send => 0,
             Ev::Deliver => 1,
             Ev::Answer(_) => 2,
-            Ev::Gate(_) => 3,
+            Ev::Gate(_) | Ev::GateFail(..) => 3,
             Ev::Drain => 4,
         }
     }
@@ -511,7 +574,7 @@ impl<'j> Sim<'j> {
             Ev::Send => format!("send#{}", self.script.len()),
             Ev::Deliver => "deliver".into(),
             Ev::Answer(i) => format!("answer#{}", self.client.server_reqs[*i].seq),
-            Ev::Gate(id) => format!("gate#{id}"),
+            Ev::Gate(id) | Ev::GateFail(id, _) => format!("gate#{id}"),
             Ev::Drain => "drain".into(),
         }
     }
@@ -647,6 +710,31 @@ impl<'j> Sim<'j> {
                 fsim::fire(id);
                 None
             }
+            Ev::GateFail(id, errno) => {
+                let errno = param.map(|p| p as i32).unwrap_or(errno);
+                let d = fsim::pending().into_iter().find(|g| g.id == id);
+                if let Some(d) = d {
+                    self.note(&format!("gate {} {} fails with errno {errno}", d.kind.name(), d.path.display()));
+                    self.res.count("fs_error_injected", 1);
+                    self.res.count(&format!("fs_error_on_{}", d.kind.name()), 1);
+                }
+                // the word of the command being served may or may not reach its dictionary; what
+                // the server shows for the open documents until their next update may be computed
+                // without a dictionary it could not read
+                if let Some(req) = self.add_command_running() {
+                    for a in self.client.added.iter_mut().filter(|a| a.req_id == req) {
+                        if !a.faulted {
+                            a.faulted = true;
+                            self.res.count("add_with_fs_error", 1);
+                        }
+                    }
+                }
+                for d in self.client.docs.iter_mut() {
+                    d.dict_tainted = true;
+                }
+                fsim::fire_fail(id, errno);
+                Some(errno as usize)
+            }
             Ev::Drain => {
                 let Some(p) = self.proc_.as_ref() else { return None };
                 let avail = p.stdout.len();
@@ -675,6 +763,7 @@ impl<'j> Sim<'j> {
         match &entry.op {
             Op::Spawn => {
                 self.note("spawn");
+                self.doom.clear();
                 fsim::reset();
                 fsim::enable(true);
                 self.install_short();
@@ -696,6 +785,7 @@ impl<'j> Sim<'j> {
                     drop(p);
                 }
                 fsim::reset();
+                self.doom.clear();
                 self.wire.clear();
                 self.res.count("crash", 1);
                 oracle::after_kill(self);
@@ -951,6 +1041,10 @@ fn label_kind(l: &str) -> String {
     if let Some(rest) = l.strip_prefix("gate:") {
         let kind = rest.split(':').next().unwrap_or("");
         return format!("g.{kind}");
+    }
+    if let Some(rest) = l.strip_prefix("gatefail:") {
+        let kind = rest.split(':').next().unwrap_or("");
+        return format!("gf.{kind}");
     }
     if l.starts_with("answer:") {
         return "a".into();
